@@ -18,7 +18,7 @@ def big_field_chain(r, coin, sizes):
 
 def explore(ck):
     r = ck.rng; quick = ck.tier == 'quick'
-    ck.rule = ('chains written XOR-ed with keys of length 1..256 (8 most often; 64 always; lengths 3,5,6,7,12,13 always present; all-zero keys, xor.dat as an absolute / relative symbolic link to a key file of another name, keys with one zero byte, keys whose first 8 bytes are zero and the rest not) and as plaintext; layouts with out-of-order blocks '
+    ck.rule = ('chains written XOR-ed with keys of length 1..256 (8 most often; 64 always; lengths 3,5,6,7,12,13 always present; all-zero keys, xor.dat as an absolute / relative symbolic link to a key file of another name, keys with one zero byte, keys whose first 8 bytes are zero and the rest not; a blk file that is a symbolic link into a directory without xor.dat) and as plaintext; layouts with out-of-order blocks '
                '(backward seeks), offsets not multiples of the key length, block starts at 32768*k +- {0,1,3}, single fields of 32768/40000/70000/131073 bytes followed by further fields, '
                'and a block beyond 4 GiB (sparse) with non-power-of-two key lengths; verbosity default/-v/-vv, --verify --start 1 on part of the cases; outputs of all five callbacks of the obfuscated directory = plaintext directory = model. '
                'Plus in-process: XorReader over seek_bufread::BufReader with arbitrary buffer sizes and short-read patterns vs the Coq mirror (Reader.v). '
@@ -59,6 +59,7 @@ def explore(ck):
             # blocks must not overlap: spots are far apart
             for h in range(5): c.add_record(blocks[h], h, *offs[h])
             c.meta['huge'] = True
+        if kind == 'shuffled' and i % 8 == 4: c.linked_files = [0]     # blk00000.dat is an absolute symbolic link into a directory that holds no xor.dat: the key of the data directory applies
         if i % 5 == 2: c.xor_link = 'abs' if i % 2 else 'rel'          # xor.dat is a symbolic link to a key file with another name
         c.verbosity = i % 3                                             # default, -v, -vv (debug output about the key must not matter)
         if kind == 'shuffled' and i % 8 == 0: c.verify = True; c.start = 1        # --verify --start 1 on an obfuscated, consistent chain
